@@ -60,7 +60,8 @@ func genExt4Cfg(r *core.Rng, tier string, t *core.Trace, wide bool) {
 		if r.Chance(15) { // non-default blocks per group: open known finding, kept to a minority of runs
 			t.Cfg["bpg"] = core.PickOf[int64](r, 8192, 4096, 2048)
 		}
-		t.Cfg["iratio"] = core.PickOf[int64](r, 0, 0, 8192, 16384, 65536)
+		t.Cfg["logflex"] = core.PickOf[int64](r, 0, 0, 0, 1, 2, 3) // groups per flex group = 2^n (0 = default 16)
+		t.Cfg["iratio"] = core.PickOf[int64](r, 0, 0, 8192, 16384, 65536, 1024, 2048)
 		t.Cfg["icount"] = core.PickOf[int64](r, 0, 0, 0, 128, 1000)
 	} else {
 		t.Cfg["flexbg"] = 1
@@ -222,6 +223,9 @@ func ext4Params(t *core.Trace) *ext4.Params {
 	}
 	if v := t.I("iratio"); v > 0 {
 		p.InodeRatio = v
+	}
+	if v := t.I("logflex"); v > 0 && v <= 5 && t.I("flexbg") != 0 {
+		p.LogFlexBlockGroups = int(v)
 	}
 	if v := t.I("icount"); v > 0 {
 		p.InodeCount = uint32(v)
@@ -929,6 +933,9 @@ func cfgClass(t *core.Trace) string {
 	}
 	if t.I("bpg") > 0 {
 		f = append(f, "bpg")
+	}
+	if v := t.I("logflex"); v > 0 && v <= 5 && t.I("flexbg") != 0 {
+		f = append(f, "flexsize")
 	}
 	if t.I("icount") > 0 || t.I("iratio") > 0 {
 		f = append(f, "inodes")
